@@ -53,6 +53,8 @@ def check(ctx, rep):
     from ..roles import proto
     trans_rule(ctx, rep, classes, proto(ctx).dispatch, proto(ctx).lock)
     addcb_rule(ctx, rep)
+    from .c02 import dispatch_rule
+    dispatch_rule(ctx, rep)
     for ci in classes:
         stages = [("", None)]
         if ci is M.fmf:
